@@ -517,15 +517,32 @@ func checkReqID(cs reqidCase) (fails []failure, outcome string) {
 	add := func(observed, what string) {
 		fails = append(fails, failure{sigBase + " observed=" + observed, what + " [case " + string(desc) + "]"})
 	}
+	// truncation deviations: the class is the kind of value that was cut (the inbound value the
+	// ID is a prefix of, else the one with bytes >= 0x80, else the trusted one) and where the
+	// limit lies; the spelling of the configured name plays no part
 	addTrunc := func(observed, what, id string) {
-		src := tv
+		src := trusted
+		found := false
 		for _, v := range []*string{trusted, cs.X, cs.C} {
 			if nonEmptyPrefixOf(id, v) {
-				src = *v
+				src, found = v, true
 				break
 			}
 		}
-		add(observed+" limit="+limitClass(cs.Limit, src), what)
+		if !found {
+			for _, v := range []*string{trusted, cs.X, cs.C} {
+				if v != nil && !isASCII(*v) {
+					src = v
+					break
+				}
+			}
+		}
+		sv := ""
+		if src != nil {
+			sv = *src
+		}
+		sig := fmt.Sprintf("reqid transport=%s trust=%v header=%s inbound=%s observed=%s limit=%s", cs.Transport, trust, hdrClass, valueClass(src), observed, limitClass(cs.Limit, sv))
+		fails = append(fails, failure{sig, what + " [case " + string(desc) + "]"})
 	}
 	expect := "fresh"
 	switch {
